@@ -1020,6 +1020,7 @@ SimpleString StringFromMaskedBits(unsigned long value, unsigned long mask, size_
 {
     SimpleString result;
     size_t bitCount = (byteCount > sizeof(unsigned long)) ? (sizeof(unsigned long) * CPPUTEST_CHAR_BIT) : (byteCount * CPPUTEST_CHAR_BIT);
+    if (bitCount == 0) return result;
     const unsigned long msbMask = (((unsigned long) 1) << (bitCount - 1));
 
     for (size_t i = 0; i < bitCount; i++) {
